@@ -62,7 +62,7 @@ def build_scale(spec):
 
 # --------------------------------------------------------------------------- signals
 
-SIGNAL_KINDS = ["noise", "noise", "noise", "zeros", "impulse", "const", "sine", "tiny", "step"]
+SIGNAL_KINDS = ["noise", "noise", "noise", "zeros", "impulse", "const", "sine", "tiny", "step", "loud_quiet"]
 
 
 def signal_specs(n_strategy):
@@ -97,6 +97,10 @@ def make_signal(spec, dtype=np.float64, n=None):
         x = scale * np.sin(w * np.arange(n) + rng.uniform(0, 6.28))
     elif kind == "tiny":
         x = rng.standard_normal(n) * 1e-9
+    elif kind == "loud_quiet":
+        # large dynamic range over time: a loud first part, then a part ~90 dB lower (still far above round-off)
+        x = rng.standard_normal(n) * scale
+        x[: n // 2] *= 3e4
     elif kind == "step":
         x = np.zeros(n)
         if n:
